@@ -29,3 +29,13 @@ Example sched_stream_runs :
      [6;0;0; 0;0; 0;0;0]; [9;0;2; 2;0; 3;1;1]; [9;0;0; 1;0; 0;0;0]; [9;0;3; 2;0; 1;2;0]; [9;0;0; 3;1; 0;0;0];
      [900; 1;1;0;0; 0;0; 0;0]; [901; 0;0;0;0]]%N.
 Proof. vm_compute. reflexivity. Qed.
+
+(** get_mut: a sole owner is granted a [&mut T] (written through; the move-out label that follows is refused: a
+    reference cannot be turned into the value), lets go, clones, and is then refused *)
+Example sched_stream_runs_get_mut :
+  run_sched [[199; 1; 0]; [200; 1;1;1; 4;1;0; 3;2;0; 6;0;0]; [201; 3;2;1; 4;1;0; 7;0;0]; [202; 8;0;0; 9;0;0];
+             [11;0;0]; [9;0;1000]; [9;0;0]; [9;0;0]; [2;0;0]; [4;0;0]; [3;0;0]; [0;0;0]; [11;0;0]; [9;0;1000]; [9;0;0]; [2;0;0]]%N
+  = [[11;0;0; 0;0; 0;0;0]; [9;0;0; 2;0; 1;2;1]; [9;0;0; 1;0; 0;0;0]; [9;0;0; 1;1; 0;0;0]; [2;0;0; 0;0; 0;0;0]; [3;0;0; 0;0; 0;0;0];
+     [0;0;0; 2;0; 2;0;1]; [11;0;0; 0;0; 0;0;0]; [9;0;1; 2;0; 1;2;2]; [9;0;0; 1;1; 0;0;0];
+     [900; 0;0;0;0; 2;0]; [901; 0;0;0;0]]%N.
+Proof. vm_compute. reflexivity. Qed.
